@@ -83,15 +83,28 @@ func vxAggTemplates() []vxTemplate {
 func VxC02Agg() {
 	t := vxAggTemplates()[vxParam("TPL", 0)]
 	k := vxParam("K", 3)
-	base := factstore.NewSimpleInMemoryStore()
-	store := &base
+	var store factstore.FactStore
+	if vxParam("KKINDS", 1) > 1 {
+		// bucketed store: hash-equal atoms of different kinds are both kept (the hash-keyed
+		// stores conflate them: known finding of C06, not this property's subject)
+		store = factstore.NewMultiIndexedArrayInMemoryStore()
+	} else {
+		base := factstore.NewSimpleInMemoryStore()
+		store = &base
+	}
 	ref := vxNewRef()
 	for i := 0; i < k; i++ {
 		p := t.edb[i%len(t.edb)]
 		key := vxInt64(fmt.Sprintf("k%d", i))
 		vxAssume(key >= 0 && key < int64(vxParam("KEYS", 10)))
 		val := vxInt64(fmt.Sprintf("v%d", i))
-		a := ast.Atom{Predicate: p, Args: []ast.BaseTerm{ast.Number(key), ast.Number(val)}}
+		kc := ast.Number(key)
+		if vxParam("KKINDS", 1) > 1 && vxChoose(fmt.Sprintf("kk%d", i), 2) == 1 {
+			// group keys of different kinds with equal hashes (5 and 5ns) are different groups
+			kc = ast.Duration(key)
+			vxTag("mixed-kind-keys")
+		}
+		a := ast.Atom{Predicate: p, Args: []ast.BaseTerm{kc, ast.Number(val)}}
 		store.Add(a)
 		ref.addAtom(a)
 	}
